@@ -22,7 +22,7 @@ import (
 )
 
 // identity kinds of a server
-var identities = []string{"genuine", "issued-by-second-ca", "foreign-ca", "self-signed", "expired", "not-yet-valid", "wrong-name", "name-of-first-endpoint", "system-pool-only", "dns-name-only"}
+var identities = []string{"genuine", "issued-by-second-ca", "foreign-ca", "self-signed", "expired", "expired-one-minute-ago", "not-yet-valid", "valid-in-one-minute", "wrong-name", "name-of-first-endpoint", "system-pool-only", "dns-name-only"}
 var protocols = []string{"tls12+", "tls12-only", "tls13-only", "tls10-11-only"}
 var clientPolicies = []string{"none", "request", "require-any", "require-verify", "require-any-other-ca-hint"}
 
@@ -65,7 +65,7 @@ func main() {
 	ev.Main("C18", "exploration", func(r *ev.Run) {
 		defer os.RemoveAll(sysDir)
 		r.Rule("real gRPC/TLS servers on 127.0.0.2..4 (one shared port) whose identity is one of {issued by a configured CA (first or second bundle CA), foreign CA, self-signed, expired, not yet valid, valid for another address, valid for the FIRST endpoint's address only, issued by a CA trusted only via SSL_CERT_FILE (the process system pool), DNS name only}, protocol range in {>=1.2, 1.2 only, 1.3 only, 1.0-1.1 only}, client-certificate policy in {none, request, require any, require and verify, require any with another CA advertised}; bundles of 1 or 2 files holding 1..3 CA certificates; endpoint lists of 1..3 with genuine and impostor servers at every position. Each server records its handshakes (version, peer certificates) and the RPCs it handled. Violations: an RPC handled by a non-genuine server or below TLS 1.2; the RA presenting no or another client certificate to a genuine server that asks for one; Sign failing although a genuine endpoint follows impostors; Sign succeeding with an impostor's certificates. distinct_nontrivial = distinct (bundle, endpoint list, per-server variant) configurations judged")
-		r.Assume("no DNS in the sandbox: endpoint names are IP addresses, matched against IP SANs", "chain validity uses the real clock with +-24 h margins", "Retries: 1")
+		r.Assume("no DNS in the sandbox: endpoint names are IP addresses, matched against IP SANs", "chain validity uses the real clock; margins of 24 h and of one minute", "Retries: 1")
 		gen.Pool()
 		dir, err := os.MkdirTemp("", "tls")
 		if err != nil {
@@ -83,6 +83,8 @@ func main() {
 			"one-file-one-ca":    {write("b1.pem", ca1.PEM)},
 			"one-file-three-cas": {write("b3.pem", ca3.PEM, ca1.PEM, ca2.PEM)},
 			"two-files":          {write("b2a.pem", ca1.PEM), write("b2b.pem", ca2.PEM)},
+			// files that do not end in a newline (the PEM END line is the last byte), three files
+			"three-files-no-trailing-newline": {write("b4a.pem", bytes.TrimRight(ca3.PEM, "\n")), write("b4b.pem", bytes.TrimRight(ca1.PEM, "\n")), write("b4c.pem", bytes.TrimRight(ca2.PEM, "\n"))},
 		}
 		client := ca1.Issue(caserver.Leaf{CN: "ra-client", Client: true})
 		clientCert, clientKey := caserver.WritePEM(dir, "client", client)
@@ -94,7 +96,7 @@ func main() {
 				continue
 			}
 			rng := c.Rand
-			bname := []string{"one-file-one-ca", "one-file-three-cas", "two-files"}[rng.Intn(3)]
+			bname := []string{"one-file-one-ca", "one-file-three-cas", "two-files", "three-files-no-trailing-newline"}[rng.Intn(4)]
 			nEp := 1 + rng.Intn(3)
 			perm := rng.Perm(3)
 			var list []string
@@ -182,6 +184,10 @@ func judge(r *ev.Run, c *ev.Case, rec caseRec, bundle []string, clientCert, clie
 			cert = ca1.Issue(caserver.Leaf{CN: "crypki", IPs: []string{ip}, SelfSigned: true})
 		case "expired":
 			cert = ca1.Issue(caserver.Leaf{CN: "crypki", IPs: []string{ip}, NotBefore: now.Add(-1000 * time.Hour), NotAfter: now.Add(-24 * time.Hour)})
+		case "expired-one-minute-ago":
+			cert = ca1.Issue(caserver.Leaf{CN: "crypki", IPs: []string{ip}, NotBefore: now.Add(-1000 * time.Hour), NotAfter: now.Add(-time.Minute)})
+		case "valid-in-one-minute":
+			cert = ca1.Issue(caserver.Leaf{CN: "crypki", IPs: []string{ip}, NotBefore: now.Add(time.Minute), NotAfter: now.Add(1000 * time.Hour)})
 		case "not-yet-valid":
 			cert = ca1.Issue(caserver.Leaf{CN: "crypki", IPs: []string{ip}, NotBefore: now.Add(24 * time.Hour), NotAfter: now.Add(1000 * time.Hour)})
 		case "wrong-name":
